@@ -3,7 +3,7 @@
    read back, checked against write_object / read_object by vm_compute. *)
 From Coq Require Import String List NArith ZArith Bool.
 From J5V.lib Require Import Outcome Corr.
-From J5V.model Require Import RulesDecl RulesWrite RulesRead RulesEnum RulesCorr.
+From J5V.model Require Import RulesDecl RulesWrite RulesRead RulesEnum RulesCorr RulesNested RulesInlineEnum.
 From J5V.model Require ProtoPrintFile ProtoPrintFileWf RulesView RulesTextModel.
 Import ListNotations.
 
@@ -34,7 +34,7 @@ Proof. decide equality; apply lpay_eq_dec. Defined.
 Definition fty_eq_dec : forall a b : fty, {a = b} + {a <> b}.
 Proof.
   decide equality; try apply olpay_eq_dec; try apply bool_dec; try apply ikind_eq_dec;
-    try apply ostr_eq_dec; try (apply list_eq_dec; apply str_eq_dec);
+    try apply ostr_eq_dec; try apply str_eq_dec; try (apply list_eq_dec; apply str_eq_dec);
     try (decide equality; first [apply int_rules_eq_dec | apply str_rules_eq_dec | apply len_rules_eq_dec
                                 | apply enum_rules_eq_dec | apply kfmt_eq_dec | apply entity_key_eq_dec
                                 | apply txt_rules_eq_dec | apply obool_eq_dec
@@ -79,6 +79,9 @@ Proof. decide equality; [apply list_eq_dec; apply infofield_eq_dec | apply list_
 Definition renum_eq_dec : forall a b : renum, {a = b} + {a <> b}.
 Proof. decide equality; try apply str_eq_dec; apply list_eq_dec; first [apply value3_eq_dec | apply infofield_eq_dec]. Defined.
 
+(* what the real reflector returned for a message and the messages nested in it *)
+Inductive otree := OT (k : rkind) (name desc : str) (props : list (option rprop)) (inner : list otree).
+
 Inductive c04case :=
 | C04Case (env : enum_env) (ds : list prop) (obs : list fout) (refl : outcome (list (option rprop)))
           (same : list bool)   (* per property: the direct oracle found declared = reflected *)
@@ -99,7 +102,16 @@ Inductive c04case :=
    name of the root message, and what the real reflector read from the really printed
    and re-parsed text of that file *)
 | C04File (env : enum_env) (imp : ProtoPrintFile.xsymtab) (d : ProtoPrintFile.dfile) (name : str)
-          (text_refl : outcome (list (option rprop))).
+          (text_refl : outcome (list (option rprop)))
+(* a declaration tree with inline schemas (name of the root, tree), the tree of messages
+   the real compiler emitted, and the root schema the real reflector returned for every
+   message of that tree (None: reflection failed somewhere) *)
+| C04Tree (env : enum_env) (name : str) (s : nschema) (obs : mtree) (refl : option otree)
+(* a field with an inline enum: path of the declaring schema, position, property, inline
+   declaration; the emitted field, the nested enum (simple name, values); the reflected
+   property and the reflected enum root (schema name, enum) *)
+| C04InlineEnum (here : list str) (idx : N) (d : prop) (i : ienum) (obs : fout) (obs_name : str) (obs_enum : enum_out)
+                (refl : option rprop) (refl_enum : option (str * renum)).
 
 (* options on the value field of a map entry (the key annotation) are not part of the file model *)
 Definition drop_map_key (o : fout) : fout :=
@@ -107,6 +119,36 @@ Definition drop_map_key (o : fout) : fout :=
   | KdMapEntry _ => FO (fo_json o) (fo_name o) (fo_number o) (fo_kind o) (fo_rep o) (fo_opt o) (fo_pres o)
                        (fo_val o) (fo_ext o) (fo_list o) None (fo_desc o)
   | _ => o
+  end.
+
+Definition rkind_eqb (a b : rkind) : bool :=
+  match a, b with RObject, RObject | ROneof, ROneof => true | _, _ => false end.
+
+Fixpoint mtree_eqb (a b : mtree) : bool :=
+  match a, b with
+  | MT o1 n1, MT o2 n2 =>
+      str_eqb (ro_name o1) (ro_name o2) && str_eqb (ro_comment o1) (ro_comment o2)
+      && match ro_msgopt o1, ro_msgopt o2 with Some x, Some y => rkind_eqb x y | None, None => true | _, _ => false end
+      && list_eqb (fun x y => fout_eqb (c04_proj x) (c04_proj y)) (ro_fields o1) (ro_fields o2)
+      && (fix go (l1 l2 : list mtree) : bool :=
+            match l1, l2 with
+            | [], [] => true
+            | x :: r1, y :: r2 => mtree_eqb x y && go r1 r2
+            | _, _ => false
+            end) n1 n2
+  end.
+
+Fixpoint rtree_matches (a : rtree) (b : otree) : bool :=
+  match a, b with
+  | RT r i1, OT k n d ps i2 =>
+      rkind_eqb (rr_kind r) k && str_eqb (rr_name r) n && str_eqb (rr_desc r) d
+      && list_eqb2 (fun p q => match q with Some q => rprop_eqb p q | None => false end) (rr_props r) ps
+      && (fix go (l1 : list rtree) (l2 : list otree) : bool :=
+            match l1, l2 with
+            | [], [] => true
+            | x :: r1, y :: r2 => rtree_matches x y && go r1 r2
+            | _, _ => false
+            end) i1 i2
   end.
 
 (* per property: is the reflected property the declared one (RulesRead.norm_prop)? *)
@@ -170,6 +212,40 @@ Definition c04_check (c : c04case) : bool :=
       | Some (Err _), Err _ => true
       | _, _ => false
       end
+  | C04Tree env name s obs refl =>
+      (* inline schemas: the emitted tree of messages, the reflected tree of schemas, and the
+         declared tree (norm_schema) against the reflected one: equal exactly on the fragment *)
+      match write_schema env [] name s with
+      | Ok m => mtree_eqb m obs
+      | _ => false
+      end &&
+      match read_tree env [] obs, refl with
+      | Ok t, Some o => rtree_matches t o
+      | Err _, None => true
+      | _, _ => false
+      end &&
+      Bool.eqb (tree_rt s) (match refl with Some o => rtree_matches (norm_schema env [] name s) o | None => false end)
+  | C04InlineEnum here idx d i obs obs_name obs_enum refl refl_enum =>
+      let env := env_of_decl (ie_decl (p_name d) i) in
+      let same (x : rprop * (str * renum)) : bool :=
+        match refl, refl_enum with
+        | Some rp, Some (rn, re) =>
+            rprop_eqb (fst x) rp && str_eqb (fst (snd x)) rn && (if renum_eq_dec (snd (snd x)) re then true else false)
+        | _, _ => false
+        end in
+      match write_inline_enum idx d i with
+      | Ok (o, (n, eo)) =>
+          fout_eqb (c04_proj o) (c04_proj obs) && str_eqb n obs_name
+          && (if enum_out_eq_dec eo obs_enum then true else false)
+      | _ => false
+      end &&
+      match read_inline_enum env here (obs, (obs_name, obs_enum)) with
+      | Ok x => same x
+      | Err _ => match refl, refl_enum with Some _, Some _ => false | _, _ => true end
+      | _ => false
+      end &&
+      (* the declared schema against the real reflector: equal exactly on the fragment *)
+      Bool.eqb (inline_enum_rt d i) (same (norm_inline_enum here idx d i))
   | C04Enum e obs refl =>
       (if enum_out_eq_dec (write_enum e) obs then true else false) &&
       match read_enum obs, refl with
